@@ -173,7 +173,8 @@ def run_tlc(module, cfg, workers=1, files=None, heap="3g", timeout=1800, simulat
             cfgname = "_run.cfg"
             with open(os.path.join(d, cfgname), "w") as f:
                 f.write(cfg)
-        cmd = ["java", "-Xmx" + heap, "-Xss64m", "-XX:+UseParallelGC"]
+        # (java.io.tmpdir inside the scratch copy: TLC creates a tlc-<n> directory per run and never removes it)
+        cmd = ["java", "-Xmx" + heap, "-Xss64m", "-XX:+UseParallelGC", "-Djava.io.tmpdir=" + d]
         if depth_first:
             cmd.append("-Dtlc2.tool.queue.IStateQueue=StateDeque")
         cmd += ["-cp", TLA_CP, "tlc2.TLC", "-workers", str(workers), "-metadir", os.path.join(d, "meta"),
